@@ -1,5 +1,158 @@
-/- Oracle driver for C14 (stub: replaced when the property's model is built). -/
+/-
+Oracle for C14: runs the executable model of seq.go (`Golem.Model.Iter.eval` /
+`evalForEach`, the very definitions `Props/C14` is about) on expression-tree case lines.
+
+case line:   `<errAt> <expr>`            errAt = 0-based visit index at which the ForEach
+                                          callback returns an error (-1: never)
+expr (prefix): F <t> | S <n> <t>*n | TW <p> <e> | DW <p> <e> | FI <p> <e> | MP <m> <e>
+             | PL <e> <e> | JN <e> <body>     (body: expr that may mention the join variable)
+term  <t>:   integer literal | $<i>:<c>      (value of the i-th enclosing join variable, innermost
+                                              = 0, plus c)
+pred  <p>:   lt:<k> ge:<k> even odd T N ltv:<i> nev:<i>
+map   <m>:   inc dbl neg mod3 addv:<i>
+result line: `<drained>|<visited by ForEach>|<err>`   lists space separated, err = `E<idx>` or `-`
+-/
+import Golem.Model.Iter
 import Golem.Driver.Util
 namespace Golem.Driver.C14
-def main : IO Unit := IO.eprintln "oracle: no driver for C14 yet"
+open Golem.Model.Iter Golem.Driver
+
+inductive Term where
+  | lit (c : Int)
+  | var (i : Nat) (c : Int)
+
+inductive Pred where
+  | lt (k : Int) | ge (k : Int) | even | odd | tt | ff | ltv (i : Nat) | nev (i : Nat)
+
+inductive Mp where
+  | inc | dbl | neg | mod3 | addv (i : Nat)
+
+inductive Syn where
+  | from (t : Term)
+  | slice (ts : List Term)
+  | tw (p : Pred) (e : Syn)
+  | dw (p : Pred) (e : Syn)
+  | fi (p : Pred) (e : Syn)
+  | mp (m : Mp) (e : Syn)
+  | pl (a b : Syn)
+  | jn (e body : Syn)
+
+abbrev Env := List Int
+
+def Term.eval (env : Env) : Term → Int
+  | .lit c => c
+  | .var i c => env.getD i 0 + c
+
+def Pred.eval (env : Env) : Pred → Int → Bool
+  | .lt k => fun v => v < k
+  | .ge k => fun v => v ≥ k
+  | .even => fun v => Int.tmod v 2 == 0
+  | .odd => fun v => Int.tmod v 2 != 0
+  | .tt => fun _ => true
+  | .ff => fun _ => false
+  | .ltv i => fun v => v < env.getD i 0
+  | .nev i => fun v => v != env.getD i 0
+
+def Mp.eval (env : Env) : Mp → Int → Int
+  | .inc => fun v => v + 1
+  | .dbl => fun v => v * 2
+  | .neg => fun v => -v
+  | .mod3 => fun v => Int.tmod v 3
+  | .addv i => fun v => v + env.getD i 0
+
+/-- The closed expression denoted by the syntax under an environment: join bodies become Lean
+functions `fun x => toExpr (x :: env) body`. -/
+def toExpr (env : Env) : Syn → Expr Int
+  | .from t => .from (t.eval env)
+  | .slice ts => .fromSlice (ts.map (Term.eval env))
+  | .tw p e => .takeWhile (toExpr env e) (p.eval env)
+  | .dw p e => .dropWhile (toExpr env e) (p.eval env)
+  | .fi p e => .filter (toExpr env e) (p.eval env)
+  | .mp m e => .map (toExpr env e) (m.eval env)
+  | .pl a b => .plus (toExpr env a) (toExpr env b)
+  | .jn e body => .join (toExpr env e) (fun x => toExpr (x :: env) body)
+
+/-! parsing -/
+
+def splitColon (s : String) : String × Option String :=
+  match s.splitOn ":" with
+  | [a] => (a, none)
+  | [a, b] => (a, some b)
+  | _ => (s, none)
+
+def parseTerm (s : String) : Option Term :=
+  if s.startsWith "$" then
+    match splitColon (s.drop 1).toString with
+    | (i, some c) => do let i ← i.toNat?; let c ← c.toInt?; pure (.var i c)
+    | _ => none
+  else s.toInt?.map .lit
+
+def parsePred (s : String) : Option Pred :=
+  match splitColon s with
+  | ("lt", some k) => k.toInt?.map .lt
+  | ("ge", some k) => k.toInt?.map .ge
+  | ("ltv", some i) => i.toNat?.map .ltv
+  | ("nev", some i) => i.toNat?.map .nev
+  | ("even", none) => some .even
+  | ("odd", none) => some .odd
+  | ("T", none) => some .tt
+  | ("N", none) => some .ff
+  | _ => none
+
+def parseMp (s : String) : Option Mp :=
+  match splitColon s with
+  | ("inc", none) => some .inc
+  | ("dbl", none) => some .dbl
+  | ("neg", none) => some .neg
+  | ("mod3", none) => some .mod3
+  | ("addv", some i) => i.toNat?.map .addv
+  | _ => none
+
+def parseTerms : Nat → List String → Option (List Term × List String)
+  | 0, ws => some ([], ws)
+  | n+1, w :: ws => do
+    let t ← parseTerm w
+    let (ts, rest) ← parseTerms n ws
+    pure (t :: ts, rest)
+  | _, [] => none
+
+partial def parseSyn : List String → Option (Syn × List String)
+  | "F" :: t :: rest => do pure (.from (← parseTerm t), rest)
+  | "S" :: n :: rest => do
+    let (ts, rest) ← parseTerms (← n.toNat?) rest
+    pure (.slice ts, rest)
+  | "TW" :: p :: rest => do let p ← parsePred p; let (e, rest) ← parseSyn rest; pure (.tw p e, rest)
+  | "DW" :: p :: rest => do let p ← parsePred p; let (e, rest) ← parseSyn rest; pure (.dw p e, rest)
+  | "FI" :: p :: rest => do let p ← parsePred p; let (e, rest) ← parseSyn rest; pure (.fi p e, rest)
+  | "MP" :: m :: rest => do let m ← parseMp m; let (e, rest) ← parseSyn rest; pure (.mp m e, rest)
+  | "PL" :: rest => do let (a, rest) ← parseSyn rest; let (b, rest) ← parseSyn rest; pure (.pl a b, rest)
+  | "JN" :: rest => do let (a, rest) ← parseSyn rest; let (b, rest) ← parseSyn rest; pure (.jn a b, rest)
+  | _ => none
+
+def showErr : Err → String
+  | .nilDeref => "panic:nil"
+  | .index => "panic:index"
+  | .fuel => "fuel"
+
+/-- ForEach callback of the protocol: state = (number of visits so far, log), error at visit `errAt`. -/
+def callback (errAt : Int) : (Nat × List Int) → Int → (Nat × List Int) × Option Nat :=
+  fun (n, log) v => ((n + 1, log ++ [v]), if (n : Int) = errAt then some n else none)
+
+def step (line : String) : String :=
+  match words line with
+  | errAt :: toks =>
+    match errAt.toInt?, parseSyn toks with
+    | some errAt, some (syn, []) =>
+      let e := toExpr [] syn
+      let d := match eval e with
+        | .ok l => showInts l
+        | .error x => showErr x
+      let f := match evalForEach e (callback errAt) (0, []) with
+        | .ok ((_, log), err) => showInts log ++ "|" ++ (match err with | some i => s!"E{i}" | none => "-")
+        | .error x => showErr x
+      d ++ "|" ++ f
+    | _, _ => "bad-case"
+  | _ => "bad-case"
+
+def main : IO Unit := eachLine step
 end Golem.Driver.C14
